@@ -153,7 +153,11 @@ Definition kf (l : list string) : key := (l, None).
     v_corr : (controlled probes) both verdicts are what the regenerated tables predict
     v_prop : the two verdicts coincide ("usable from a file iff usable from the environment")
     guards : 1 = the probe touches a recorded disagreement row (C20-F1) of a group
-             that is not repaired yet ([fa]/[fb] = repair of group a/b applied) *)
+             that is not repaired yet ([fa]/[fb] = repair of group a/b applied).
+             Only group f is left, its rows are of kind "section" and no probe of
+             this stream is (probes are mechanism definitions): guard 1 cannot fire
+             here any more; C20-F1f is observed by stream meta (guard 7)
+             6 = the probe sets a duration-valued option (C20-F6) *)
 From HV Require Export C20.SchemaModel Gen.SchemaTables.
 
 Record scase := { s_probe : probe; s_controlled : bool; s_schema : bool; s_loader : bool }.
@@ -182,7 +186,10 @@ Definition sc k t cf o mi c s l :=
              5 = the file of a split is not valid for the schema on its own
                  although the whole configuration is (C20-F5)
              6 = the schema rejects the all-file configuration, the loader
-                 without the validator accepts it (C20-F6) *)
+                 without the validator accepts it (C20-F6), and guard 7 does not fire
+             7 = the same, for a configuration that sets something below one of the
+                 four serve.* rows of C20-F1f (names the shared ServiceConfig struct
+                 has and the schema does not allow for that service) *)
 Record mcase := {
   mc_pfx : string;
   mc_vars : list (string * bool);       (* variable name, file holds a map at the list element(s) it addresses *)
@@ -193,13 +200,30 @@ Record mcase := {
 Definition f4_var (pfx : string) (v : string * bool) : bool :=
   flat_after_index (split_dot (normalise_key pfx (fst v))) && negb (snd v).
 
+(** "serve.decision.cors" ... : the rows of [known_F1f] that name a setting (not the `[].if` rows, not `version`) *)
+Definition f1f_paths : list string :=
+  flat_map (fun r => match r with
+                     | ROpt k sec n =>
+                         if String.eqb k "section"%string && negb (existsb (String.eqb "if"%string) (split_dot n))
+                         then [String.append sec (String.append "."%string (String.append n "."%string))] else []
+                     | _ => []
+                     end) known_F1f.
+
+Definition f1f_var (pfx : string) (v : string * bool) : bool :=
+  existsb (fun p => prefix p (normalise_key pfx (fst v))) f1f_paths.
+
+Definition guard_meta_F1f (c : mcase) : bool :=
+  negb fixed_F1f && negb (mc_schema_all c) && mc_loader_all c &&
+  (existsb (f1f_var (mc_pfx c)) (mc_vars c) || existsb (f1f_var (mc_pfx c)) (mc_all c)).
+
 Definition check_meta (c : mcase) : verdict :=
   {| v_corr := true;
      v_prop := if mc_okA c then mc_okS c && mc_eqAS c && mc_okE c && mc_eqAE c
                else negb (mc_okS c || mc_okE c);
      v_guards := guards [(4%Z, existsb (f4_var (mc_pfx c)) (mc_vars c) || existsb (f4_var (mc_pfx c)) (mc_all c));
                          (5%Z, mc_schema_all c && (negb (mc_split_valid c) || negb (mc_rest_valid c)));
-                         (6%Z, negb (mc_schema_all c) && mc_loader_all c)] |}.
+                         (6%Z, negb (mc_schema_all c) && mc_loader_all c && negb (guard_meta_F1f c));
+                         (7%Z, guard_meta_F1f c)] |}.
 
 Definition mc p v a oa os oe es ee sv rv sa la :=
   {| mc_pfx := p; mc_vars := v; mc_all := a; mc_okA := oa; mc_okS := os; mc_okE := oe; mc_eqAS := es; mc_eqAE := ee;
